@@ -40,11 +40,26 @@ def check(ctx):
     # ---- K1 -----------------------------------------------------------------------
     inside, outside = [], []
     new_fns = set(getattr(facts, 'new_fns', ()) or ())
+    # extracted helpers the actor calls (as written, before inlining) belong to the actor
+    if group:
+        pristine = getattr(facts, 'pristine', {})
+        grew = True
+        while grew:
+            grew = False
+            for b in facts.bodies.values():
+                if b.name not in group and not any(b.name.startswith(g + '::{') for g in group):
+                    continue
+                pb = pristine.get(b.defp, b)
+                for _blk, t in pb.calls():
+                    cal = strip_generics(t.get('resolved') or t.get('callee') or '')
+                    if cal in new_fns and cal not in group:
+                        group.add(cal)
+                        grew = True
     for b in facts.bodies.values():
         if b.d['promoted'] or b.crate == 'datacake_crdt':
             continue
-        if b.name in new_fns or b.name.rsplit('::{closure#0}', 1)[0] in new_fns:
-            continue        # an extracted helper: its code is part of (inlined into) every caller, where it is judged
+        if (b.name in new_fns or b.name.rsplit('::{closure#0}', 1)[0] in new_fns) and b.name not in group and not any(b.name.startswith(g + '::{') for g in group):
+            continue        # an extracted helper outside the actor: its code is part of (inlined into) every caller, where it is judged
         for blk, t in b.calls():
             if cname(t) in (HT + '::send', HT + '::recv'):
                 is_in = b.name.startswith(N + 'run_clock') or b.name in group or any(b.name.startswith(g + '::{') for g in group)
